@@ -573,7 +573,20 @@ func (m *Machine) violate(kind, label string, extra *Term) {
 		m.stats.Unknowns++
 		return
 	}
-	m.violations = append(m.violations, Violation{Kind: kind, Label: label, Site: m.site(), Phase: m.phase, Nondets: nd, Decisions: append([]int(nil), m.trace...)})
+	v := Violation{Kind: kind, Label: label, Site: m.site(), Phase: m.phase, Nondets: nd, Decisions: append([]int(nil), m.trace...)}
+	// does the witness depend on the contents of uninitialised memory (fresh "garb" bytes)?
+	q := append([]*Term(nil), m.pc...)
+	if extra != nil {
+		q = append(q, extra)
+	}
+	for _, t := range q {
+		for _, id := range m.varsOf(t) {
+			if strings.HasPrefix(m.ctx.terms[id].Name, "garb") {
+				v.Extra = map[string]string{"uninit": "1"}
+			}
+		}
+	}
+	m.violations = append(m.violations, v)
 }
 
 // check: harness assertion. Violated if pc ∧ ¬cond is satisfiable.
@@ -721,7 +734,8 @@ func (m *Machine) zero(t types.Type) Value {
 			return c.False
 		}
 		if u.Info()&types.IsComplex != 0 {
-			m.unsupported("complex type")
+			w := 4 * m.sizeof(u)
+			return Agg{c.Const(0, w), c.Const(0, w)}
 		}
 		return c.Const(0, m.width(t))
 	case *types.Pointer, *types.Map, *types.Chan, *types.Signature:
@@ -866,7 +880,8 @@ func (m *Machine) load(p *Term, t types.Type) Value {
 			v := m.loadBits(p, 1)
 			return c.Not(c.Eq(v, c.Const(0, 8)))
 		case u.Info()&types.IsComplex != 0:
-			m.unsupported("complex load")
+			h := m.sizeof(u) / 2
+			return Agg{m.loadBits(p, h), m.loadBits(m.addOff(p, int64(h)), h)}
 		}
 		return m.loadBits(p, m.sizeof(u))
 	case *types.Pointer, *types.Map, *types.Chan, *types.Signature:
@@ -906,6 +921,12 @@ func (m *Machine) store(p *Term, t types.Type, v Value) {
 			return
 		case u.Info()&types.IsBoolean != 0:
 			m.storeBits(p, c.Ite(v.(*Term), c.Const(1, 8), c.Const(0, 8)), 1)
+			return
+		case u.Info()&types.IsComplex != 0:
+			h := m.sizeof(u) / 2
+			a := v.(Agg)
+			m.storeBits(p, a[0].(*Term), h)
+			m.storeBits(m.addOff(p, int64(h)), a[1].(*Term), h)
 			return
 		}
 		m.storeBits(p, v.(*Term), m.sizeof(u))
